@@ -79,3 +79,17 @@ func init() {
 		o.def("indexNoNestedEdgeLocks", "Bool", lbool(nested && nRanges >= 5), "every iteration over an edge map in hnsw.go is inside that vertex-level's RLock/RUnlock pair and calls nothing that locks")
 	})
 }
+
+// C13: the result of a search is assembled with a tombstone test.
+func init() {
+	extractors = append(extractors, func(o *out) {
+		f := parseFile("index/hnsw.go")
+		ok := false
+		if fd := funcDecl(f, "Hnsw", "Search"); fd != nil {
+			s := norm(fd.Body)
+			ok = strings.Contains(s, "item:=neighbors.Pop()vertex:=item.Value().(*hnswVertex)ifvertex.isDeleted(){continue}result=append(result,SearchResultItem{Id:vertex.Id(),Metadata:vertex.Metadata(),Score:item.Priority()})") &&
+				strings.Count(s, "result=append(") == 1 && !strings.Contains(s, "result[i].Id=")
+		}
+		o.def("searchSkipsTombstonedResults", "Bool", lbool(ok), "Hnsw.Search skips a vertex that isDeleted() when it assembles its result (the only place result items are produced)")
+	})
+}
